@@ -36,12 +36,19 @@ type batchParams struct {
 	event   string // "", cancel, droptable, meta-silent+cancel, close
 	evAfter int
 	evStep  int // > 0: the event interrupts at this scheduling step instead (-1: never, probe run)
+	// pre: "merge" - the regions of all keys are located first (warm cache), then the two
+	// regions of the table are merged, then the batch is sent: every call is refused once
+	// and re-located into ONE region, whatever connection it went over in the first round
+	pre string
 	ownCtx  int // index of a call that has its own context, cancelled by the event "cancel-call" (-1: none)
 }
 
 func (p batchParams) String() string {
 	if p.evStep != 0 {
 		return fmt.Sprintf("%s|keys=%v|kinds=%v|scripts=%v|event=%s at step %d|ownctx=%d", p.layout, p.keys, p.kinds, p.scripts, p.event, p.evStep, p.ownCtx)
+	}
+	if p.pre != "" {
+		return fmt.Sprintf("%s|keys=%v|kinds=%v|scripts=%v|pre=%s|ownctx=%d", p.layout, p.keys, p.kinds, p.scripts, p.pre, p.ownCtx)
 	}
 	return fmt.Sprintf("%s|keys=%v|kinds=%v|scripts=%v|event=%s@%d|ownctx=%d", p.layout, p.keys, p.kinds, p.scripts, p.event, p.evAfter, p.ownCtx)
 }
@@ -100,6 +107,16 @@ func batchBody(p batchParams, out *batchObs) func() {
 			for _, c := range []byte(p.scripts[i]) {
 				cl.KeyScript[k] = append(cl.KeyScript[k], outcomeClass[c])
 			}
+		}
+		if p.pre == "merge" {
+			for _, k := range p.keys {
+				g, _ := hrpc.NewGetStr(context.Background(), "t", k)
+				if _, err := w.client.Get(g); err != nil {
+					panic("warm-up failed: " + err.Error())
+				}
+			}
+			ra, rb := cl.Owner("t", []byte("a")), cl.Owner("t", []byte("x"))
+			cl.Merge(ra, rb, rb.Server)
 		}
 		if p.event != "" {
 			late := false
